@@ -6,26 +6,7 @@ from ..index import FuncInfo, dotted, walk_no_nested, loc, ancestors
 from .persist import (BASE, CORE, _calls, rule_atomic_replace, rule_close_writes, rule_exit_persists, rule_hash_after_accept)
 
 
-def bool_skeleton(expr, atoms):
-    """Evaluate a boolean expression under assignments of recognised atoms: returns f(assignment dict) -> bool|None."""
-    def ev(e, asg):
-        for name, pred in atoms.items():
-            if pred(e):
-                return asg[name]
-        if isinstance(e, ast.BoolOp):
-            vals = [ev(v, asg) for v in e.values]
-            if isinstance(e.op, ast.And):
-                if any(v is False for v in vals):
-                    return False
-                return None if any(v is None for v in vals) else True
-            if any(v is True for v in vals):
-                return True
-            return None if any(v is None for v in vals) else False
-        if isinstance(e, ast.UnaryOp) and isinstance(e.op, ast.Not):
-            v = ev(e.operand, asg)
-            return None if v is None else not v
-        return None
-    return lambda asg: ev(expr, asg)
+from ..astutil import bool_skeleton
 
 
 def run(ctx):
